@@ -92,6 +92,14 @@ def step (a : Apu) (w : List String) : Apu × String :=
                  hexN 8 (cksum (outs.map (·.1))) ++ " " ++ hexN 8 (cksum (outs.map (·.2))) ++ " 0 ; " ++ internals a'
         ({ a' with out := [] }, guardCrash a' o)
       | none => (a, "bad-op")
+  | ["stall", n] => match n.toNat? with
+      | some n =>
+        -- a fresh sound unit with both outputs attached: a slow consumer changes nothing
+        let b := Apu.cycles n (Apu.new true true)
+        let outs := b.out.reverse
+        (a, nr52 b ++ " " ++ toString outs.length ++ " " ++ toString outs.length ++ " " ++
+            hexN 8 (cksum (outs.map (·.1))) ++ " " ++ hexN 8 (cksum (outs.map (·.2))))
+      | none => (a, "bad-op")
   | ["st"] => (a, guardCrash a ("st ; " ++ internals a))
   | ["wf"] => (a, guardCrash a (hexN 2 a.ch1.dutyIndex ++ " " ++ hexN 2 a.ch2.dutyIndex ++ " " ++
                                hexN 2 a.ch3.position ++ " " ++ hexN 4 a.ch4.lfsr))
